@@ -1108,6 +1108,29 @@ func (e *errEngine) evalObj1(v ssa.Value, cx *evalCtx, depth int) map[ocl]bool {
 		}
 		return one(oDyn)
 	case *ssa.Call:
+		if b, ok := x.Call.Value.(*ssa.Builtin); ok && b.Name() == "append" && len(x.Call.Args) == 2 {
+			// append(s, xs...) is non-nil when at least one element is appended (xs is a whole
+			// array of length >= 1: the variadic form with explicit elements), or when s is
+			if sl, ok := x.Call.Args[1].(*ssa.Slice); ok && sl.Low == nil && sl.High == nil && sl.Max == nil {
+				if pt, ok := sl.X.Type().Underlying().(*types.Pointer); ok {
+					if at, ok := pt.Elem().Underlying().(*types.Array); ok && at.Len() >= 1 {
+						return one(oNon)
+					}
+				}
+			}
+			out := map[ocl]bool{}
+			for o := range e.evalObj(x.Call.Args[0], cx, depth+1) {
+				if o == oNon {
+					out[oNon] = true
+				} else {
+					out[oDyn] = true
+				}
+			}
+			if len(out) == 0 {
+				return one(oDyn)
+			}
+			return out
+		}
 		if dc, ok := cx.caseOf[x]; ok {
 			return one(dc.O)
 		}
